@@ -965,6 +965,7 @@ class Dilator:
         self._pending_dilation_key = None
         self._pending_wormhole_versions = None
         self._pending_inbound_dilate_messages = deque()
+        self._manager_has_versions = False
         self._did_dilate = Once(CanOnlyDilateOnceError)
 
     def wire(self, sender, terminator):
@@ -1005,10 +1006,7 @@ class Dilator:
             if self._pending_dilation_key is not None:
                 m.got_dilation_key(self._pending_dilation_key)
             if self._pending_wormhole_versions:
-                m.got_wormhole_versions(self._pending_wormhole_versions)
-            while self._pending_inbound_dilate_messages:
-                plaintext = self._pending_inbound_dilate_messages.popleft()
-                m.received_dilation_message(plaintext)
+                self._deliver_versions(self._pending_wormhole_versions)
 
         return self._manager._api
 
@@ -1040,12 +1038,24 @@ class Dilator:
 
     def got_wormhole_versions(self, their_wormhole_versions):
         if self._manager:
-            self._manager.got_wormhole_versions(their_wormhole_versions)
+            self._deliver_versions(their_wormhole_versions)
         else:
             self._pending_wormhole_versions = their_wormhole_versions
 
+    def _deliver_versions(self, their_wormhole_versions):
+        self._manager.got_wormhole_versions(their_wormhole_versions)
+        self._manager_has_versions = True
+        self._deliver_pending_dilate_messages()
+
     def received_dilate(self, plaintext):
-        if not self._manager:
-            self._pending_inbound_dilate_messages.append(plaintext)
-        else:
-            self._manager.received_dilation_message(plaintext)
+        # the Manager cannot handle dilation messages until it has heard the
+        # peer's versions (it is still WAITING), and the server may deliver
+        # the peer's first dilate-N message before its version message
+        self._pending_inbound_dilate_messages.append(plaintext)
+        self._deliver_pending_dilate_messages()
+
+    def _deliver_pending_dilate_messages(self):
+        if self._manager and self._manager_has_versions:
+            while self._pending_inbound_dilate_messages:
+                plaintext = self._pending_inbound_dilate_messages.popleft()
+                self._manager.received_dilation_message(plaintext)
